@@ -28,6 +28,8 @@ def shards(tier, seed):
         out.append(("boundary_rand_%d" % i, dict(kind="boundary", which="rand", count=60 if q else 300)))
     out.append(("decoders", dict(kind="decoders", count=150 if q else 1500)))
     out.append(("child_decoders", dict(kind="decoders", count=60 if q else 600, _pyopt="opt")))
+    out.append(("child_bb_decoders", dict(kind="decoders", count=60 if q else 600, _pyopt="bb")))
+    out.append(("child_bb_der_fuzz", dict(kind="der_fuzz", count=1500 if q else 20000, _pyopt="bb")))
     out.append(("child_boundary_curves", dict(kind="boundary", which="curves", _pyopt="opt+hashseed")))
     out.append(("child_exh", dict(kind="exh", nmax=40 if q else 120, part=0, parts=1, _pyopt="opt")))
     out.append(("concurrent", dict(kind="concurrent", runs=150 if q else 2000)))
